@@ -15,11 +15,12 @@ MANIFEST = {
     'text': 'Sample.__init__ (loop invariant over parameter_names), samples_array / dim / n_samples / discrepancies, sample_means, '
             'sample_means_and_95CIs, sample_quantiles, BolfiSample.__init__ (slice / reshape / transpose index arithmetic), '
             'gelman_rubin_statistic (= the textbook split R-hat built from definitional finite sums over the input, odd lengths included), '
+            'eff_sample_size for a single chain (= the formula its docstring names, between-chain variance 0; loop invariant over the lags; FFT through one assumed contract), '
             'sample_object_to_dict and numpy_to_python_type (which keys are copied / converted, one nesting level) are verified on the real source '
             'for all numbers of parameters, samples, chains and warm-up lengths; the affine / chain-order invariance of R-hat is proved from the '
             'moment lemmas (ghost lemma functions) and, on the real body, by computer algebra at small concrete shapes.',
     'note': 'Trusted: pyvc engine and numpy spec table (sum = finite sum, var = mean squared deviation / (n - ddof), reshape row-major), '
-            'weighted_sample_quantile through its C13 contract. Not decided: ESS = textbook formula (FFT autocovariance), byte fidelity of '
+            'weighted_sample_quantile through its C13 contract. Not decided: ESS = textbook formula for two or more chains (bounded against an independent O(n^2) reference), byte fidelity of '
             'pickle / JSON / CSV (both bounded only: round trips of result objects with distinguishable entries, ESS / R-hat invariance natively). '
             'Univariate parameter columns (1-D outputs); floats are reals.',
     'technique': 'deductive: loop-invariant VCs from the real AST (pyvc), ghost lemma functions, z3/cvc5; CAS (sympy) on the real body at concrete shapes; '
@@ -1081,7 +1082,7 @@ NN = z3.Function('all_rho_nonneg', I, B)      # NN(k)    = rho_t >= 0 for every 
 
 class _Log2:
     """np.log2(n), 1 + it, np.ceil of that, 2 ** that: only the composite 2 ** ceil(1 + log2 n) is given a value - an integer
-    P with 2n <= P < 4n (assumed arithmetic fact, sanity-tested)"""
+    even P with 2n <= P < 4n (assumed arithmetic fact, sanity-tested)"""
 
     def __init__(self, n, plus=0, ceil=False):
         self.n, self.plus, self.ceil = n, plus, ceil
@@ -1098,7 +1099,7 @@ class _Log2:
             raise OutOfSubset('power of a logarithm other than 2 ** ceil(1 + log2 n)')
         vc = cur()
         P = vc.fresh_int('n_padded')
-        vc.assume(P >= 2 * self.n, P < 4 * self.n)
+        vc.assume(P >= 2 * self.n, P < 4 * self.n, P % 2 == 0)
         return SInt(P)
 
 
@@ -1116,7 +1117,7 @@ class _Spectrum:
 
 class _FFT:
     """numpy.fft, only the autocovariance idiom irfft(|rfft(d, P)|^2) (assumed contract = Wiener-Khinchin with zero padding,
-    sanity-tested): for P >= 2n - 1 entry [c, t], t < n, is sum_{i < n-t} d[c, i] d[c, i+t]"""
+    sanity-tested): for even P >= 2n - 1 entry [c, t], t < n, is sum_{i < n-t} d[c, i] d[c, i+t]"""
 
     @staticmethod
     def rfft(a, n=None, axis=-1):
@@ -1135,7 +1136,7 @@ class _FFT:
         C = conc(rows)
         if C is None or C > 4:
             raise OutOfSubset('FFT autocovariance model needs a small concrete number of chains')
-        vc.oblige('call-pre[autocovariance by FFT: padded length >= 2n - 1, no wrap-around]', P >= 2 * n_ - 1)
+        vc.oblige('call-pre[autocovariance by FFT: padded length even (irfft returns that length) and >= 2n - 1 (no wrap-around)]', z3.And(P >= 2 * n_ - 1, P % 2 == 0))
         AC, LK = vc.fresh_fn('autocov', I, I, R), vc.fresh_fn('lagsum', I, I, I, R)
         U = []
         for c in range(C):
@@ -1948,6 +1949,8 @@ TRUSTED_BASE = ['pyvc engine: proxies, loop cutting, numpy spec table (np.sum / 
                 'weighted_sample_quantile through its C13 contract (contracts/c13.py::Quantile: element of the sample, weight <= q at least alpha, weight < q at most alpha)',
                 'type names of numpy objects: for a numpy type the class name contains "array" exactly for arrays, else "int" exactly for integer scalars, else "float" exactly for '
                 'floating scalars; .tolist() / int() / float() of those return plain python objects (sanity-tested on ndarray, int8..64, uint8..64, float16..64, bool_, str_)',
+                'numpy.fft autocovariance idiom irfft(|rfft(d, P)|^2)[c, t] = sum_{i<n-t} d[c, i] d[c, i+t] for t < n when P is even and >= 2n - 1 (Wiener-Khinchin with zero padding; '
+                'contracts/c16.py::_FFT; sanity-tested against direct summation) and 2 ** ceil(1 + log2 n) even and in [2n, 4n) - used only by EssOneChain',
                 'L2a permutation invariance of a finite sum (Mathlib Equiv.sum_comp; lemmas/L2.lean, as in C13) - used only by LemmaRhatPermutation',
                 'sympy (CAS tier): expand / simplify / cancel reduce a zero rational function to 0; numpy object arrays apply +, -, *, / elementwise',
                 'universal generalisation and quantifier instantiation in the R-hat proof script (contracts/c16.py::forall_intro, Univ.inst, fcut): fresh constant, syntactic membership checks']
@@ -1958,12 +1961,14 @@ ASSUMPTIONS = ['A-REAL: floats are reals; A-INT: integers are mathematical; no N
                'sample_means: weights sum to non-zero; intervals / quantiles: weights >= 0 with positive sum, n >= 1 (C13 Quantile.requires)',
                'BolfiSample: 0 <= warmup <= N, at least one chain and one parameter, len(parameter_names) = chains.shape[2]',
                'gelman_rubin_statistic: 2-D input with N >= 4 (two draws per half chain) and positive within-sequence variance (else 0/0)',
+               'eff_sample_size[1-chain]: N >= 2 and a non-constant chain (W > 0); the loop exit lag T is characterised as the first lag with rho_T < 0 or n',
                'numpy_to_python_type: distinct top-level keys hold distinct nested dict objects; sample_object_to_dict: no meta key equals the name of a copied attribute',
                'A-LOG: logging / print calls have no effect']
-NOT_PROVED = ['"the effective-sample-size and split R-hat diagnostics ... equal their textbook formulas" - the ESS half: FFT autocovariance (numpy.fft.rfft / irfft) has no usable '
-              'first-order specification and the truncation loop is data dependent; not decided (the R-hat half is proved)',
+NOT_PROVED = ['"the effective-sample-size and split R-hat diagnostics ... equal their textbook formulas" - the ESS half for TWO OR MORE chains: not under contract (bounded: 2-4 chains against an '
+              'independent O(n^2) implementation of the formula).  For a SINGLE chain (1-d or (1, N)) it is proved (EssOneChain) relative to ONE assumed library contract: the FFT autocovariance '
+              'idiom equals the sum of lagged products (numpy.fft has no first-order specification of its own); the R-hat half is proved',
               '"the effective-sample-size and split R-hat diagnostics are invariant under affine rescaling of the chains and reordering of chains" - the ESS half: bounded only '
-              '(x -> -3x+7 and every chain order, C <= 4, N in 4..9); it would follow from an assumed axiom autocov(a x + b) = a^2 autocov(x), not attempted',
+              '(x -> -3x+7, scales 1e-6 .. 1e6, every chain order, C <= 4, N in 4..9)',
               '"Saving a sample to pickle, JSON or CSV and reading it back yields the same samples": byte fidelity of pickle / json float repr / csv text is library behaviour - bounded only '
               '(round trips in a temp dir); proved: which keys sample_object_to_dict copies and which values numpy_to_python_type converts (one nesting level)',
               'Sample.save itself (file handling, json.dumps, csv.writer, the populations letters) is not under contract; its JSON branch is covered through its two helpers and the bounded round trips',
@@ -2010,6 +2015,13 @@ def sanity():
     for v in (1, 0.5, 's', None, [1], {'a': 1}):
         ok = ok and type(v).__module__ != np.__name__
     out.append(('numpy type-name tests classify arrays / integers / floats; conversions give plain python objects', bool(ok)))
+    d = np.array([[0.3, -1.2, 0.7, 2.0, -0.4, 0.1, 1.5]])
+    ok = True
+    for P in (14, 16, 32):
+        ac = np.fft.irfft(np.abs(np.fft.rfft(d, P)) ** 2)[:, :7].real
+        ok = ok and all(abs(ac[0, t] - sum(d[0, i] * d[0, i + t] for i in range(7 - t))) < 1e-12 for t in range(7))
+    out.append(('irfft(|rfft(d, P)|^2)[t] = sum of lagged products for even P >= 2n - 1', bool(ok)))
+    out.append(('2 ** ceil(1 + log2 n) is even and lies in [2n, 4n)', all(2 * n <= int(2 ** np.ceil(1 + np.log2(n))) < 4 * n and int(2 ** np.ceil(1 + np.log2(n))) % 2 == 0 for n in range(1, 3000))))
     out.append(('json round trip of python floats is exact', json.loads(json.dumps([0.1, 1 / 3, 2.5e-300])) == [0.1, 1 / 3, 2.5e-300]))
     return out
 
